@@ -19,6 +19,10 @@ import time
 
 from .loop import SimLoop, EventLog
 
+import contextvars
+
+OWNER = contextvars.ContextVar("sim_owner", default="harness")  # which simulated process a task belongs to
+
 EPOCH = 1_700_000_000.0 - SimLoop.BASE  # time.time() == EPOCH + loop.time()
 REAL_CONTAMINATED = 1_750_000_000.0  # any mtime above this is a real (2026) one
 
@@ -451,6 +455,24 @@ class SimEnv:
         FS.dirty = set()
         FS.root = jail + "/"
         loop.step_hooks.append(fs_flush)
+
+    def kill_tasks(self, owner):
+        """Tasks of a simulated process that has exited must not keep running
+        (in-process zombies would keep polling and packing folders)."""
+        import asyncio
+
+        victims = []
+        for t in asyncio.all_tasks(self.loop):
+            try:
+                if not t.done() and t.get_context().get(OWNER) == owner:
+                    victims.append(t)
+            except Exception:
+                pass
+        for t in victims:
+            t.cancel()
+        if victims:
+            self.stats["zombie_tasks_killed"] = self.stats.get("zombie_tasks_killed", 0) + len(victims)
+        return victims
 
     def process_exit(self):
         """Emulate what the OS does when the simulated process ends: sqlite
